@@ -50,10 +50,9 @@ func (r *Reconciler) ExtendPause(increment klog.Duration) error {
 
 	extendedPause := r.Record.Entries()[pauseEntryI].Duration().Plus(increment)
 	pauseLineIndex := r.lastLinePointer - countLines(r.Record.Entries()[pauseEntryI:])
-	durationPattern := regexp.MustCompile(`(-\w+)`)
-	value := durationPattern.FindString(r.lines[pauseLineIndex].Text)
+	durationPattern := regexp.MustCompile(`^([ \t]*)[^ \t]+`)
 	if extendedPause.InMinutes() != 0 {
-		r.lines[pauseLineIndex].Text = strings.Replace(r.lines[pauseLineIndex].Text, value, extendedPause.ToString(), 1)
+		r.lines[pauseLineIndex].Text = durationPattern.ReplaceAllString(r.lines[pauseLineIndex].Text, "${1}"+extendedPause.ToString())
 	}
 
 	return nil
